@@ -312,6 +312,81 @@ func c02(c *core.Ctx) {
 		}
 	}
 
+	// C02.replace: a swamp file that holds synced records is only ever replaced by a file whose own
+	// contents were flushed and synced. Driven by the rename sites, not by function names.
+	rR := c.Rule("C02.replace", "a file that is renamed over another one inside the storage engine (and the format-migration tool) was written through a FileWriter of the same function whose Close - the flush of its last block plus fsync - returned nil before the rename on every path: a crash right after the rename never finds a replacement that lacks records the replaced file had durably stored", 2)
+	for _, f := range p.FuncsUnder("app/") {
+		if f.Decl == nil || f.Decl.Body == nil {
+			continue
+		}
+		info := f.Info()
+		var renames []*ast.CallExpr
+		core.Calls(f.Decl.Body, true, func(call *ast.CallExpr) {
+			if core.IsCallTo(info, call, "os.Rename") && len(call.Args) == 2 {
+				renames = append(renames, call)
+			}
+		})
+		if len(renames) == 0 {
+			continue
+		}
+		// writers of this function: w := v2.NewFileWriter*(path, ...)
+		type wr struct {
+			obj  types.Object
+			path types.Object
+			mk   *ast.CallExpr
+		}
+		var writers []wr
+		ast.Inspect(f.Decl.Body, func(x ast.Node) bool {
+			as, ok := x.(*ast.AssignStmt)
+			if !ok || len(as.Rhs) != 1 || len(as.Lhs) == 0 {
+				return true
+			}
+			call, ok := core.Unparen(as.Rhs[0]).(*ast.CallExpr)
+			if !ok || len(call.Args) == 0 {
+				return true
+			}
+			callee := core.Callee(info, call)
+			if callee == nil {
+				return true
+			}
+			sig, _ := callee.Type().(*types.Signature)
+			fwNamed := p.Named(pkgV2, "FileWriter")
+			if sig == nil || sig.Results().Len() == 0 || fwNamed == nil {
+				return true
+			}
+			if pt, ok := sig.Results().At(0).Type().(*types.Pointer); !ok || !types.Identical(pt.Elem(), fwNamed) {
+				return true
+			}
+			writers = append(writers, wr{core.ObjOf(info, as.Lhs[0]), core.ObjOf(info, call.Args[0]), call})
+			return true
+		})
+		for _, ren := range renames {
+			src := core.ObjOf(info, ren.Args[0])
+			var w *wr
+			for i := range writers {
+				if src != nil && writers[i].path == src {
+					w = &writers[i]
+				}
+			}
+			if w == nil {
+				continue // not a file produced by the block writer (log rotation, directory moves)
+			}
+			fl := core.NewFlow(p, info, f.Decl.Body)
+			var wclose *ast.CallExpr
+			core.Calls(f.Decl.Body, false, func(call *ast.CallExpr) {
+				if core.IsWsCallTo(info, call, pkgV2+".FileWriter.Close") && core.ObjOf(info, core.RecvExpr(call)) == w.obj && core.ErrObjOfCall(info, f.Decl.Body, call) != nil {
+					wclose = call
+				}
+			})
+			if wclose == nil {
+				rR.Bad(f.Key+":rename-after-close", ren.Pos(), "the file written by "+w.obj.Name()+" is renamed over its target but no Close of that writer has its error tested before: the last buffered block and the fsync may still be missing when the old file is gone")
+				continue
+			}
+			ok, why := fl.OnlyAfterSuccess(f.Decl.Body, wclose, ren)
+			rR.Check(ok, f.Key+":rename-after-close", ren.Pos(), "replacement file flushed and synced before it takes the place of the old one", "the replacement can be renamed over the old file before its writer was closed successfully ("+why+")")
+		}
+	}
+
 	rC := c.Rule("C02.closeorder", "swamp.Close: pending records are written (fileWriterHandler) and the chronicler is closed before the swamp's goroutines are cancelled and before the closed event lets the swamp be summoned again", 3)
 	{
 		f := c.Fn(pkgSwamp + ".swamp.Close")
